@@ -6,7 +6,20 @@ mod accept {
     include!("/repo/actix-server/src/accept.rs");
     #[cfg(feature = "drv")] pub(crate) mod drv;
 }
-#[path = "/repo/actix-server/src/availability.rs"] mod availability;
+mod availability {
+    include!("/repo/actix-server/src/availability.rs");
+    /// native replay of an engine-S counterexample on the real module
+    #[cfg(feature = "drv")]
+    pub(crate) fn drv(line: &str) -> String {
+        let v: Vec<u128> = line.split_whitespace().map(|x| x.parse().unwrap()).collect();
+        let r = std::panic::catch_unwind(|| {
+            let mut a = Availability([v[0], v[1], v[2], v[3]]);
+            a.set_available(v[4] as usize, v[6] == 1);
+            format!("{} {} {} {} {} {}", a.get_available(v[5] as usize) as u8, a.available() as u8, a.0[0], a.0[1], a.0[2], a.0[3])
+        });
+        r.unwrap_or_else(|_| "PANIC".into())
+    }
+}
 #[path = "/repo/actix-server/src/builder.rs"] mod builder;
 #[path = "/repo/actix-server/src/handle.rs"] mod handle;
 #[path = "/repo/actix-server/src/join_all.rs"] mod join_all;
@@ -31,3 +44,4 @@ pub use self::{
 /// Native action drivers (child modules of the mounted `accept` / `worker` modules, so they see private items).
 #[cfg(feature = "drv")] pub fn drv_accept(script: &str) -> String { accept::drv::run(script) }
 #[cfg(feature = "drv")] pub fn drv_worker(script: &str) -> String { worker::drv::run(script) }
+#[cfg(feature = "drv")] pub fn drv_avail(line: &str) -> String { availability::drv(line) }
